@@ -281,6 +281,11 @@ func raceDelta() string {
 	return s
 }
 
+// childDeath: a fresh process that executed a job died with a Go fatal error or panic.
+type childDeath struct{ stderr string }
+
+func (d *childDeath) Error() string { return "fresh process died:\n" + lastLines(d.stderr, 30) }
+
 // runFresh executes a job in a fresh process of this same binary and returns its result.
 func runFresh(job *Job) (*Result, error) {
 	var args []string
@@ -299,9 +304,16 @@ func runFresh(job *Job) (*Result, error) {
 	cmd := exec.Command(wenv.selfPath, args...)
 	b, _ := json.Marshal(job)
 	cmd.Stdin = strings.NewReader(string(b))
-	cmd.Stderr = os.Stderr
+	var errOut strings.Builder
+	cmd.Stderr = &errOut
 	out, err := cmd.Output()
 	if err != nil {
+		if strings.Contains(errOut.String(), "fatal error:") || strings.Contains(errOut.String(), "\npanic:") {
+			// the child died the way a process dies when the code under test kills it (a Go fatal
+			// error exits with status 2): that is an observation, not harness trouble
+			return nil, &childDeath{stderr: errOut.String()}
+		}
+		os.Stderr.WriteString(errOut.String())
 		return nil, fmt.Errorf("fresh process: %v", err)
 	}
 	var res Result
